@@ -7,6 +7,9 @@ From V.C20 Require Import Model.
 Import ListNotations.
 Open Scope string_scope.
 
+Definition one_halfturn : float := 1%float.
+Definition two : float := 2%float.
+
 (* the naming map: (module, python function, extension, tket op) *)
 Definition naming : list (string * string * (string * string)) := [
   ("quantum", "qubit.__new__", ("tket.quantum", "QAlloc"));
